@@ -25,6 +25,9 @@ def addTask (g : DiGraph) (t : Nat) (preds : Option (List Nat)) : DiGraph :=
   | none => g
   | some ps => ps.foldl (fun g p => g.addEdge p t) g
 
+/-- `wb.add_task(task, predecessors=wb.output_tasks)`: join all current output tasks. -/
+def addTaskToOutputs (g : DiGraph) (t : Nat) : DiGraph := addTask g t (some g.outputNodes)
+
 /-- `WorkflowBuilder.replace_task(task, new_task)` -/
 def replaceTask (g : DiGraph) (old new : Nat) : DiGraph := g.relabel1 old new
 
